@@ -569,7 +569,14 @@ pub fn c17(args: &Args, reg: &[TypeEntry], log: &mut Log) {
                     if prims.is_empty() {
                         break;
                     }
-                    faulted_op = Op { ty: prims[rng.below(prims.len())], kind: op.kind.clone() };
+                    let p = prims[rng.below(prims.len())];
+                    // the entry point that writes nothing refuses such a root the same way
+                    match guarded(reg[p].export_to_string) {
+                        Err(panic) => problem = Some(("panic-instead-of-error".into(), format!("{}::export_to_string() with NotExportable: {panic}", reg[p].rust))),
+                        Ok(Ok(text)) => problem = Some(("ok-despite-obstacle".into(), format!("{}::export_to_string() returned Ok: {}", reg[p].rust, text.chars().take(120).collect::<String>()))),
+                        Ok(Err(_)) => {}
+                    }
+                    faulted_op = Op { ty: p, kind: op.kind.clone() };
                     target_set.clear();
                     retry = true;
                 }
